@@ -25,12 +25,13 @@ Definition all_zero (d : list Z) : bool := forallb (Z.eqb 0%Z) d.
 (* mode 2: length, None pattern, shapes and values are compared.
    mode 1: the expression contains a node whose matrix is not affine in its leaves (Root, Chol, Mul): the unit-step
            coefficient of the model's default path is not the derivative there; length, None pattern and shapes only.
-   mode 0: the expression contains a class that is modelled for routing only (Opaque: no sizes): length and None pattern *)
+   mode 0: the expression contains a class that is modelled for routing only (Opaque: no sizes, so also the
+           square / non-square branch of BatchRepeat is unknown): tuple length, and a None of the model must be a None *)
 Definition cmp_slot (mode : nat) (m : option (tensor ZK)) (o : obs_slot) : nat :=
   match m, o with
   | None, None => 0
   | None, Some (_, d) => if all_zero d then 0 else 2
-  | Some t, None => if mode <? 2 then 2 else if all_zero (to_flat ZK t) then 0 else 2
+  | Some t, None => if mode =? 0 then 0 else if mode =? 1 then 2 else if all_zero (to_flat ZK t) then 0 else 2
   | Some t, Some (sh, d) =>                      (* nested ifs: vm_compute must not evaluate the values in modes 0, 1 *)
       if mode =? 0 then 0
       else if negb (list_nat_eqb (tshape ZK t) sh) then 3
